@@ -1,5 +1,6 @@
 import OvniModel.Rt.Buffer
 import OvniModel.Rt.Mark
+import OvniModel.Rt.WriteLoop
 import OvniModel.Generated.Consts
 import Drivers.Util
 namespace Drivers.Rt
@@ -114,7 +115,28 @@ def showMarks (mk : Ovni.Rt.Mark.Meta) : String :=
     let ls := ",".intercalate (td.labels.map fun (v, l) => s!"{v}={Drivers.toHex (l.toList.map Char.toNat)}")
     s!"{td.type}:{Drivers.toHex (td.title.toList.map Char.toNat)}:{if td.stack then "stack" else "single"}:{ls}")
 
+/-- `wlog <asked>><transferred|-> …`: the call log of the real library's stream
+    writes through `WriteLoop.replay` -/
+def wlog (pairs : List String) : String :=
+  let parse (p : String) : Option Ovni.Rt.WriteLoop.Call :=
+    match p.splitOn ">" with
+    | [a, "-"] => a.toNat?.map fun n => (n, none)
+    | [a, b] => match a.toNat?, b.toNat? with
+      | some n, some k => some (n, some k)
+      | _, _ => none
+    | _ => none
+  match pairs.mapM parse with
+  | none => "bad-op"
+  | some l =>
+    match Ovni.Rt.WriteLoop.replay l with
+    | .ok loops bytes => s!"ok loops={loops} bytes={bytes}"
+    | .mismatch i w g => s!"mismatch call={i} owed={w} asked={g}"
+    | .overrun i => s!"overrun call={i}"
+    | .unfinished w => s!"unfinished owed={w}"
+    | .aborted i clean => s!"aborted call={i} last={if clean then 1 else 0}"
+
 def script (line : List String) : String :=
+  if line.head? = some "wlog" then wlog line.tail else
   let ops := (Drivers.splitTok ";" line).filter (fun l => !l.isEmpty)
   match ops.mapM parseDOp with
   | none => "bad-op"
